@@ -86,6 +86,7 @@ def load_module(path: str) -> ModuleInfo:
 
 
 def get_function(path: str, qualname: str) -> FuncInfo:
+    qualname = qualname.split("#")[0]  # "Class.method#part": a second contract on another part of the same function
     mod = load_module(path)
     if qualname not in mod.funcs:
         raise LookupError(f"function {qualname} not found in {path}")
